@@ -208,6 +208,25 @@ def clock_family(ctx) -> list:
     return out
 
 
+def pair_family(ctx) -> list:
+    """option PAIRS that change the box layout in front of / inside the moof together: protection (senc, saiz,
+    saio, PIFF uuid boxes inside the traf) x in-band events (an emsg box in front of the moof of some video
+    segments, so that moof.position != 0 while protection boxes are present) x the saio bug-compatibility
+    switch.  Pristine here; `gen_corruptions` places the catalogue in segments with and without a leading emsg."""
+    import c18_run
+    now = NOW_POOL[0]
+    grid = [("vod", {"drm": "clearkey", "events": "ping"}, 16),
+            ("live", {"drm": "clearkey", "events": "ping", "depth": "30"}, 20),
+            ("vod", {"drm": "playready", "playready_piff": "1", "events": "ping"}, 16),
+            ("live", {"drm": "all", "events": "ping", "depth": "30", "timeline": "1"}, 20),
+            ("vod", {"drm": "clearkey", "events": "ping", "bugs": "saio"}, 12)]
+    if ctx.thorough:
+        grid += [("live", {"drm": "playready", "playready_piff": "1", "events": "ping", "depth": "30"}, 38),
+                 ("vod", {"drm": "marlin", "events": "ping", "timeline": "1"}, 16),
+                 ("vod", {"events": "ping"}, 16), ("live", {"events": "ping", "depth": "30", "timeline": "1"}, 20)]
+    return [c18_run.Case("bbb", "hand_made.mpd", mode, q, d, now) for mode, q, d in grid]
+
+
 def handon_family(ctx) -> list:
     """sessions in which the validator follows what the server hands on to a *later* request – the
     PatchLocation chain of `patch=1` (every refresh is a request to the URL the previous answer spelled out) and
@@ -310,7 +329,8 @@ def gen_pristine(ctx, rng):
                     cases.append(c18_run.Case(stream, name, mode, q, dur, now))
     # the fixed grids come first (the sampled option sets above follow them): deterministic in every tier and
     # exempt from the time limit of the pristine phase
-    fixed = handon_family(ctx) + clock_family(ctx) + layout_family(ctx, rng) + refresh_family(ctx, rng)
+    fixed = pair_family(ctx) + handon_family(ctx) + clock_family(ctx) + layout_family(ctx, rng) + \
+        refresh_family(ctx, rng)
     _STATE["n_fixed"] = len(fixed)
     cases = fixed + cases
     # tears in quick: two cases
@@ -412,6 +432,30 @@ def gen_corruptions(ctx, rng, base, res, per_base: int):
             else:
                 delta = rng.choice([1, -1, 8, 16, -5])
             placed.append({"kind": kind, "rep": rid, "nth": nth, "delta": delta, "place": place})
+    # … and, when some segments of a Representation carry a box in front of the moof (in-band events), in a
+    # segment WITH and in one WITHOUT such a lead; the saio offset is also moved by exactly the moof position
+    # (the value a base taken from the wrong place would absorb)
+    by_rep: dict = {}
+    for ex in res.exchanges:
+        if ex.cls == "media" and ex.status in (200, 206):
+            by_rep.setdefault(ex.rep, []).append(getattr(ex, "moof_pos", None))
+    for rid, poss in sorted(by_rep.items()):
+        r = reps.get(rid)
+        if r is None or not any(poss) or not r["segments"]:
+            continue
+        lead = [i for i, p_ in enumerate(poss) if p_]
+        nolead = [i for i, p_ in enumerate(poss) if p_ == 0]
+        for cls_, idxs in (("lead", lead), ("nolead", nolead)):
+            if not idxs:
+                continue
+            nth = rng.choice(idxs)
+            mp = poss[lead[0]]
+            if r["encrypted"]:
+                for delta in (mp, -mp, 1):
+                    placed.append({"kind": "saio", "rep": rid, "nth": nth, "delta": delta, "place": cls_,
+                                   "leading": cls_})
+            placed.append({"kind": "trun", "rep": rid, "nth": nth, "delta": rng.choice([mp, -mp, 4]), "place": cls_,
+                           "leading": cls_})
     for rid, n in sorted(counts.items()):
         r = reps.get(rid)
         if r is None or not r["segments"]:
@@ -1115,6 +1159,16 @@ def segment_plan(rng, wide: bool):
             except Exception:
                 continue
             bytes_variants.append((label, d2, T + delta if kind == "tfdt" else T, S + delta if kind == "mfhd" else S))
+        # saio offset moved by the moof position (when the moof is not the first box) and by one
+        mp = moof_position(data) or 0
+        for label, delta in (("saio+moofpos", mp), ("saio-moofpos", -mp), ("saio+1", 1)):
+            if delta == 0:
+                continue
+            try:
+                d2, _ = c18_run.apply_corruption({"kind": "saio", "delta": delta}, data)
+                yield f"{label}/exact", {"seq": S, "dt": T, "dur": D or None, "tol": tol0, "pto": min(pto, T)}, d2
+            except Exception:
+                pass
         # trun.data_offset moved by the size of a box header (8) either way: with a 16-byte mdat header
         # "8 too small" points at the second half of the header, not at the payload
         for label, delta in (("trun-8", -8), ("trun+8", 8)):
@@ -1155,7 +1209,8 @@ def direct_cases(ctx):
     cases = [c18_run.Case("bbb", "hand_made.mpd", "vod", {"timeline": "1"}, 12, now),
              c18_run.Case("c18la", "hand_made.mpd", "vod", {"timeline": "1"}, 12, now),     # 16-byte mdat headers
              c18_run.Case("bbb", "hand_made.mpd", "live", {"depth": "30"}, 12, now),
-             c18_run.Case("bbb", "manifest_e.mpd", "vod", {"drm": "clearkey"}, 12, now)]
+             c18_run.Case("bbb", "manifest_e.mpd", "vod", {"drm": "clearkey"}, 12, now),
+             c18_run.Case("bbb", "hand_made.mpd", "vod", {"drm": "clearkey", "events": "ping"}, 12, now)]
     if ctx.thorough:
         cases += [c18_run.Case("bbb", "hand_made.mpd", "vod", {}, 12, now),
                   c18_run.Case("bbb", "manifest_a.mpd", "live", {"depth": "30"}, 12, now),
@@ -1165,6 +1220,79 @@ def direct_cases(ctx):
                                NOW_POOL[3]),
                   c18_run.Case("bbb", "manifest_h.mpd", "vod", {}, 12, NOW_POOL[1])]
     return cases
+
+
+TIMELINE_GRID = [
+    # (label, S elements as (t | None, d, r) relative to t0 = start of the first entry, D = its duration)
+    ("contiguous, t only on the first", [("t0", "D", 2), (None, "D", 0)]),
+    ("later S with the implied t", [("t0", "D", 2), ("t0+3*D", "D", 1)]),
+    ("later S@t leaves a gap", [("t0", "D", 2), ("t0+3*D+G", "D", 1)]),
+    ("later S@t overlaps", [("t0", "D", 2), ("t0+3*D-G", "D", 0)]),
+    ("gap after a single S", [("t0", "D", 0), ("t0+2*D", "D", 0), (None, "D", 3)]),
+    ("every S carries t", [("t0", "D", 0), ("t0+D", "D", 0), ("t0+2*D", "D+G", 0), ("t0+3*D+G", "D", 0)]),
+    ("t restarts at the first value", [("t0", "D", 1), ("t0", "D", 1)]),
+    ("first S without t", [(None, "D", 2), (None, "D+G", 0)]),
+    ("first S without t, later S with t", [(None, "D", 1), ("t0+5*D", "D", 0)]),
+    ("one S", [("t0", "D", 0)]),
+    ("one S repeated", [("t0", "D", 7)]),
+    ("t = 0 on a later S", [("t0", "D", 1), ("0", "D", 0)]),
+]
+
+
+def run_timeline_grid(ctx, app, ch, batch):
+    """`vtl`, fixed part: the real Manifest / SegmentTimeline classes parse a served manifest whose
+    SegmentTimelines are rewritten by a fixed grid of S lists – S@t on the first, on later, on every element;
+    implied, leaving a gap, overlapping, restarting; absent – and the expanded (start, duration) list is
+    compared with the model.  No request is made."""
+    import c18_run
+    from lxml import etree
+    for mode, q in (("vod", {"timeline": "1"}), ("live", {"timeline": "1", "depth": "30"})):
+        case = c18_run.Case("bbb", "hand_made.mpd", mode, q, 12, NOW_POOL[0])
+        with __import__("appboot").Clock(case.now):
+            r = app.client().get(case.path())
+        if r.status_code != 200:
+            ch.errors.append(f"timeline grid: manifest {case.path()} -> {r.status_code}")
+            continue
+        xmls, raws = [], []
+        for label, grid in TIMELINE_GRID:
+            root = etree.fromstring(r.data)
+            raw_all = []
+            for tl in root.iter(M._q("SegmentTimeline")):
+                first = tl.find(M._q("S"))
+                t0, D = int(first.get("t", "0")), int(first.get("d"))
+                G = max(1, D // 3)
+                env = {"t0": t0, "D": D, "G": G}
+                for s_ in tl.findall(M._q("S")):
+                    tl.remove(s_)
+                raw = []
+                for t, d, rr in grid:
+                    el = etree.SubElement(tl, M._q("S"))
+                    dv_ = eval(d, {}, env)
+                    el.set("d", str(dv_))
+                    tv = None if t is None else eval(t, {}, env)
+                    if tv is not None:
+                        el.set("t", str(tv))
+                    if rr:
+                        el.set("r", str(rr))
+                    raw.append((tv, dv_, rr))
+                raw_all.append(raw)
+            xmls.append(etree.tostring(root, xml_declaration=True, encoding="UTF-8"))
+            raws.append((label, raw_all))
+        for (label, raw_all), row in zip(raws, c18_run.load_only(app, case, xmls)):
+            info = {"case": case.json(), "grid": label}
+            if row["crashed"]:
+                ch.oracle_failures.append({**info, "what": "the validator crashed parsing a SegmentTimeline",
+                                           "crash": row["crashed"]})
+                continue
+            root = M.parse_xml(row["xml"])
+            for raw, rep in zip(effective_timelines(root), row["snap"]["reps"]):
+                if raw is None or rep.get("timeline") is None:
+                    continue
+                line = "vtl " + " ".join(f"{'-' if t is None else t},{'-' if d is None else d},{r_}" for t, d, r_ in raw)
+                exp = "/".join(f"{t}:{d}" for t, d in rep["timeline"]) or "-"
+                batch.add(ch, line, exp, {**info, "rep": rep["id"]}, canon=lambda s: s.split(" ")[0])
+                ch.count(f"grid:{label}")
+                ch.nontrivial.add((label, mode, rep["id"]))
 
 
 def run_direct_channel(ctx, app, ch, batch):
@@ -1203,6 +1331,7 @@ def run_direct_channel(ctx, app, ch, batch):
             ch.count("observed-tfdt:" + ("zero" if seg["dt"] == 0 else "positive"))
             ch.count("index:" + ("first" if r["index"] == 0 else "later"))
             ch.count("mdat-header:" + ot.split(";")[0].split(",")[11])
+            ch.count("moof-position:" + ("0" if (moof_position(r["data"]) or 0) == 0 else "behind-a-leading-box"))
             for k in kinds or ["clean"]:
                 ch.count(f"kind:{k}")
             ch.nontrivial.add((case.path(), rep["id"], r["index"], r["label"]))
@@ -1248,6 +1377,22 @@ RULES = {
     "vrefresh": "every manifest refresh: previous/new availabilityStartTime, publishTime, minimumUpdatePeriod, "
                 "MPD@id vs the validator's top-level errors",
 }
+
+
+def moof_position(data: bytes):
+    """offset of the first top-level moof (top-level box headers only); None when there is none"""
+    import struct
+    pos = 0
+    while pos + 8 <= len(data):
+        size, typ = struct.unpack(">I4s", data[pos:pos + 8])
+        if size == 1 and pos + 16 <= len(data):
+            (size,) = struct.unpack(">Q", data[pos + 8:pos + 16])
+        if typ == b"moof":
+            return pos
+        if size < 8:
+            return None
+        pos += size
+    return None
 
 
 def shared_state() -> dict:
@@ -1341,6 +1486,8 @@ def run_sessions(app, cases, chs, batch, limit_s=None):
             run.errors.append(f"correspond crashed on {case.path()} {c}: {type(e).__name__}: {e}")
         # keep the memory bounded: segment bytes are not needed once the model's questions are queued
         for ex in res.exchanges:
+            if ex.cls == "media" and ex.status in (200, 206):
+                ex.moof_pos = moof_position(ex.data)
             if ex.cls in ("media", "init"):
                 ex.data = b""
         if len(batch.lines) > 3000:
@@ -1383,9 +1530,31 @@ def channels(ctx):
             else:
                 rest.append(c)
             continue
+        if c.corruption["kind"] == "initbox":
+            # a top-level box, a box process_moov needs, a box of the mandatory list – static and live
+            leaf = c.corruption["box"].split("/")[-1]
+            k += ("top" if leaf in ("ftyp", "moov") else
+                  "parse" if leaf in ("trak", "tkhd", "mdia", "mdhd", "hdlr", "minf", "stbl", "stsd") else "mandatory",)
+            if seen.get(k, 0) < (1 if not ctx.thorough else 8):
+                seen[k] = seen.get(k, 0) + 1
+                attr_first.append(c)
+            else:
+                rest.append(c)
+            continue
+        if c.corruption["kind"] == "timeline":
+            # every kind of SegmentTimeline edit of the catalogue, static and live, before the sampled rest
+            k += (c.corruption["op"],)
+            if seen.get(k, 0) < (2 if not ctx.thorough else 12):
+                seen[k] = seen.get(k, 0) + 1
+                attr_first.append(c)
+            else:
+                rest.append(c)
+            continue
         if "place" in c.corruption:
             # … in static and live sessions, $Time$ and $Number$ addressing
             k += (c.corruption["place"], addressing(c))
+            if "leading" in c.corruption:
+                k += (c.corruption["delta"] > 0, abs(c.corruption["delta"]) > 8)
             limit = 1 if not ctx.thorough else 8
             if seen.get(k, 0) < limit:
                 seen[k] = seen.get(k, 0) + 1
@@ -1398,7 +1567,7 @@ def channels(ctx):
             # among the refreshes, in short and in long (>= 5 refreshes) sessions
             k += (c.query.get("mup", "default"), c.corruption.get("at"), c.corruption.get("loads", 0) >= 6)
             if c.corruption.get("at") == "any":
-                k += (bool(c.query.get("timeline")), c.template)
+                k += (abs(c.corruption.get("seconds", 0)) > 30,)
             limit = 1 if not ctx.thorough else 4      # the rest of them run after the other kinds had their turn
             if seen.get(k, 0) < limit:
                 seen[k] = seen.get(k, 0) + 1
@@ -1426,6 +1595,7 @@ def channels(ctx):
                 "case": case.json(), "what": "the same session gives another answer after the other sessions ran",
                 "first": repr(first)[:400], "again": repr(verdict_signature(res2))[:400]})
     run_direct_channel(ctx, app, chs["vsegx"], batch)
+    run_timeline_grid(ctx, app, chs["vtl"], batch)
     batch.run()
     run = chs["validator_run"]
     # verdict-level correspondence: a disagreement in any sub-channel is a verdict disagreement of its session
